@@ -47,3 +47,30 @@ package join
 //@ o-ensures: when nresults(typs[0])=1 [error-first] (err != nil ==> rerr == err && traceLen() == 0) && (err == nil ==> rerr == result(0, f) && traceLen() == 1 && called(0, f))
 //@ o-ensures: when nresults(typs[0])=2 [error-first] (err != nil ==> rerr == err && r0 == Zero(result0(typs0)) && traceLen() == 0) && (err == nil ==> r0 == result(0, f) && rerr == result(1, f) && traceLen() == 1 && called(0, f))
 //@ o-ensures: when nresults(typs[0])=3 [error-first] (err != nil ==> rerr == err && r0 == Zero(result0(typs0)) && r1 == Zero(result1(typs0)) && traceLen() == 0) && (err == nil ==> r0 == result(0, f) && r1 == result(1, f) && rerr == result(2, f) && traceLen() == 1 && called(0, f))
+
+// channel forms (C19 is outside a sequential calculus): text-level obligations only (C01, C09)
+//@ func (g *gen) genChan(typs []types.Type) (err error)
+//@ param typs: len=1
+//@ emits: decls
+//@ serves: join len=1 kind=Chan typs=typs
+//@ o-sig: (in <-chan (<-chan $elem(elem(typs[0])))) (r <-chan $elem(elem(typs[0])))
+//@ o-header: unchecked
+//@ o-text-only: all
+
+//@ func (g *gen) genChanVariant(typs []types.Type) (err error)
+//@ param typs: len=2,3
+//@ emits: decls
+//@ serves: join len=2 kind=Chan typs=typs
+//@ serves: join len=3 kind=Chan typs=typs
+//@ o-sig: when len(typs)=2 (c0 $typs[0], c1 $typs[1]) (r <-chan $elem(typs[0]))
+//@ o-sig: when len(typs)=3 (c0 $typs[0], c1 $typs[1], c2 $typs[2]) (r <-chan $elem(typs[0]))
+//@ o-header: unchecked
+//@ o-text-only: all
+
+//@ func (g *gen) genSliceOfChan(typs []types.Type) (err error)
+//@ param typs: len=1
+//@ emits: decls
+//@ serves: join len=1 kind=Slice ekind=Chan typs=typs
+//@ o-sig: (in []<-chan $elem(elem(typs[0]))) (r <-chan $elem(elem(typs[0])))
+//@ o-header: unchecked
+//@ o-text-only: all
